@@ -21,7 +21,7 @@ def _p(rules, decided, not_decided, technique, thorough_rules=()):
 
 
 PROPS = {
-    'C01': _p(['R-apply-step', 'R-append-gate', 'R-commit-gate', 'R-truncate-on-conflict', 'R-log-owners', 'R-payload-complete'],
+    'C01': _p(['R-apply-step', 'R-append-gate', 'R-commit-gate', 'R-truncate-on-conflict', 'R-log-owners', 'R-leader-append-position', 'R-sender-prev-adjacent', 'R-payload-complete'],
               'apply-loop step discipline (exactly one advance per dispatched entry, batch bounded by the commit index); received entries stored '
               'only behind the log-matching gate; follower commit index raised only on a verified path and never past what the message verified; '
               'truncation only on a stored-vs-received conflict; who may truncate/clear/trim the log; snapshot payload positions agree between writer and loader.',
@@ -33,13 +33,13 @@ PROPS = {
               'a callback waits at exactly the (index, term) its command was appended with; request ids never reused.',
               ['that a SUCCESS-reported command is never undone later (global, see C04)', 'timeouts'],
               'linear typestate by event counting over path-sensitive CFG exploration, guard entailment, def-use'),
-    'C03': _p(['R-vote-grant', 'R-term-vote-writes', 'R-majority', 'R-leader-entry', 'R-step-down'],
+    'C03': _p(['R-vote-grant', 'R-term-vote-writes', 'R-majority', 'R-leader-entry', 'R-step-down', 'R-leader-append-position'],
               'the five Raft vote-grant conditions are entailed at the grant; term only grows and the vote is reset only with a term change; every majority '
               'test is a strict majority of voters+self over the voter set; LEADER is entered only behind a majority test as CANDIDATE of the current term; '
               'newer terms / accepted append_entries lead to FOLLOWER.',
               ['the global counting argument (one leader per term follows from these local rules plus FIFO links)', 'vote duplication across restarts (C07)'],
               'path-sensitive must-fact guard entailment, small-domain evaluation of extracted majority arithmetic'),
-    'C04': _p(['R-commit-rule', 'R-match-writes', 'R-ack-after-store', 'R-truncate-on-conflict', 'R-commit-gate', 'R-majority'],
+    'C04': _p(['R-commit-rule', 'R-match-writes', 'R-ack-after-store', 'R-truncate-on-conflict', 'R-commit-gate', 'R-leader-append-position', 'R-sender-prev-adjacent', 'R-majority'],
               'leader commits only an index stored on a strict majority of voters whose entry has the current term; matchIndex only raised for a successful reply, '
               'upwards, to the acknowledged index; positive acknowledgement only after gate + store (or completed install) with a recognised index; truncation only on '
               'conflict; follower commit only on verified paths, monotone and bounded by the leader commit.',
@@ -66,7 +66,7 @@ PROPS = {
               'stores and publishes the final offset; sibling journals implement the same interface and every mutator updates mirror and file.',
               ['equality with an in-memory list for all operation sequences (byte-level round trip)', 'head drop kill-safety (known finding)'],
               'ordering on CFGs, must-facts for the bounded write, table agreement against struct.calcsize, sibling cross-check'),
-    'C09': _p(['R-payload-complete', 'R-version-in-payload', 'R-no-field-leak', 'R-snapshot-point', 'R-dump-atomic', 'R-version-pairing', 'R-transfer-restart'],
+    'C09': _p(['R-payload-complete', 'R-version-in-payload', 'R-no-field-leak', 'R-snapshot-point', 'R-dump-atomic', 'R-version-pairing', 'R-transfer-restart', 'R-transfer-flags'],
               'payload components and the positions the loader reads them from; enabled version inside the payload in every serializer mode; no internal attribute leaks into the payload; '
               'no apply between fixing the position and serializing; dump only ever renamed into place; name table rebuilt for the enabled version; interrupted transfers restart.',
               ['pickle round-trip equality of user state', 'chunk reassembly under every interruption pattern'],
